@@ -117,7 +117,7 @@ P("C12", RM + "lock-step comparison of every queue operation with a reference FI
 STATUS_RULE = ("histories of 5-200 messages (1-4 units each) against a device wired as in the documented example (handle_error->push_error, stb->scpi_stb, cls->scpi_cls, opc->scpi_opc), three queue back-ends, "
                "interleaved with device-side condition updates (walking ones, complements, double toggles, bit 15) and the message-available flag both ways; vocabulary: all IEEE 488.2 common commands, STATus:OPERation/QUEStionable "
                "EVENt/CONDition/ENABle/PTR/NTR (decimal and #H/#Q/#B parameters incl. 65535/65536/-1), STATus:PRESet, SYSTem:ERRor NEXT/COUNt/ALL, handler-raised errors of every class, invalid messages of every kind. "
-               "After every message the response text and the complete device state (queue contents, ESR, ESE, SRE, both register sets) are compared with the reference model. Non-trivial = distinct unit-kind sequences per history.")
+               "After every message the response text and the complete device state (queue contents, ESR, ESE, SRE, both register sets) are compared with the reference model. Also: unread backlogs around 2^12/2^16/2^17 read back with COUNt?/NEXT?/ALL?, device-side ScpiDevice::preset_register / push_error calls, a tree declared through the extended scpi_register! arm, *IDN? with empty fields, queue order after a read whose answer did not fit; under C16 a plain IEEE 488.2 device that keeps the provided stb() (stage plain-488.2-device). Non-trivial = distinct unit-kind sequences per history.")
 
 P("C13", RM + "history monitor: error queue, ESR and SYST:ERR / *ESR? responses in lock-step with a reference status model (emphasis on failing messages and queue reads)", STATUS_RULE,
   ["where *STB? depends on the summary-bit definition (project: condition&enable, SCPI-99: event&enable) either answer is accepted"],
@@ -138,7 +138,7 @@ P("C16", RM + "history monitor: *STB? composition (incl. MAV and MSS), *ESE/*SRE
 
 P("C17", RM + "differential oracle: NumericValue<T> recognition against the keyword list and the underlying T conversion, resolution against a reference resolver, invariant min<=v<=max on every success; 14 underlying types",
   "data elements: decimal literals in every spelling (on, next to and far from the bounds), MIN/MAX/DEF/UP/DOWN in short/long form and random case, 22 near misses (MAXI, DEFA, UPP, INF, ...), non-numeric elements; "
-  "types: 10 integer types, f32, f64, Time<f32>, Frequency<f32>; bounds min<=max incl. min==max, default inside or absent. Ranges open on either side (infinite bounds), one NaN limit (values must be refused), default outside the bounds (default or -222), NumericBuilder::new, setters called repeatedly and in every order. Non-trivial = distinct (element, type).",
+  "types: 10 integer types, f32, f64, Time<f32>, Frequency<f32>; bounds min<=max incl. min==max, default inside or absent. Ranges open on either side (infinite bounds), one NaN limit (values must be refused), default outside the bounds (default or -222), NumericBuilder::new, setters called repeatedly and in every order. Every element also through Parameters::next_data / next_optional_data::<NumericValue<T>>; stage arithmetic: * k, / k (k>0), + a, - a, map on a parsed value before resolution (keywords stay what they are). Non-trivial = distinct (element, type).",
   quick=[REL, DBG, COMPACT], thorough=[REL, DBG, COMPACT],
   floors={"quick": {"evaluations": 2_000_000, "elements.keyword": 50_000, "resolve.value-on-bound": 10_000}, "thorough": {"evaluations": 100_000_000}})
 
